@@ -63,7 +63,7 @@ async def _drive(case):
     actor._set_power_group.drop_old_proposals = rec_drop
     actor.start()
     rep_rx = {}
-    for op, q in ((False, Q_REG), (True, Q_OP)):
+    for op, q in ((False, case.get("q_reg", Q_REG)), (True, case.get("q_op", Q_OP))):
         rr = ReportRequest(source_id=f"sub{q}", component_ids=IDS, priority=q, set_operating_point=op)
         rep_rx[op] = registry.get_or_create(_Report, rr.get_channel_name()).new_receiver(limit=1000)
         await subs.new_sender().send(rr)
@@ -163,9 +163,9 @@ Definition rep_eqb (a b : report) : bool :=
   bnds_eqb (r_reg_bounds a) (r_reg_bounds b) && bnds_eqb (r_op_bounds a) (r_op_bounds b).
 Definition ma_reg := max_proposal_age_us.
 Definition ma_op := max_proposal_age_op_us.
-Definition check (c : list pevent * list (option Z * option report)) : bool :=
-  let '(h, exp) := c in
-  list_eqb (pair_eqb optZ_eqb (opt_eqb rep_eqb)) (prun ma_reg ma_op 1 2 pm_init h) exp.
+Definition check (c : Z * Z * list pevent * list (option Z * option report)) : bool :=
+  let '(q_reg, q_op, h, exp) := c in
+  list_eqb (pair_eqb optZ_eqb (opt_eqb rep_eqb)) (prun ma_reg ma_op q_reg q_op pm_init h) exp.
 """
 
 
@@ -230,7 +230,9 @@ def gen_case(rng, maxlen=14):
             evs.append({"t": "result", "k": rng.choice([0, 1, 1, 2]), "back": rng.choice([0, 0, 1, 2])})
         else:
             evs.append({"t": "sleep", "dt": rng.choice([1, 8, 80, 239, 240, 400, 479, 480, 481, 500])})
-    return {"events": evs}
+    # the priorities of the two report subscriptions: independent numbering per group, so they may coincide
+    q = rng.choice([-2, 0, 1, 2, 3, 7])
+    return {"events": evs, "q_reg": q, "q_op": q if rng.random() < 0.4 else rng.choice([-2, 0, 1, 2, 3, 7])}
 
 
 def boundary_cases():
@@ -244,18 +246,20 @@ def boundary_cases():
         {"events": [P(False, "r", 1, 20), B(-100, 100), P(False, "r", 1, 20), {"t": "sleep", "dt": 481}, P(True, "op", 1, -30),
                     {"t": "sleep", "dt": 100}, B(-50, 50)]},
         {"events": [B(-100, 100, -10, 10), P(True, "op", 1, 5), P(False, "r", 1, -5), B(-100, 100, -30, 30), B(0, 0)]},
+        # F24 witness: both subscriptions on the same priority
+        {"events": [B(-100, 100), P(True, "op", 1, 70), P(False, "r", 1, 20)], "q_reg": 1, "q_op": 1},
     ]
 
 
 def shrink_case(case):
     ev = case["events"]
     for i in range(len(ev)):
-        yield {"events": ev[:i] + ev[i + 1:]}
+        yield {**case, "events": ev[:i] + ev[i + 1:]}
     for i, e in enumerate(ev):
         if e["t"] == "prop":
             for fld in ("pref", "lo", "hi"):
                 if e[fld] is not None:
-                    yield {"events": ev[:i] + [{**e, fld: None}] + ev[i + 1:]}
+                    yield {**case, "events": ev[:i] + [{**e, fld: None}] + ev[i + 1:]}
 
 
 class PMStream(Stream):
@@ -274,11 +278,11 @@ class PMStream(Stream):
         evs, exp = model_events(case, obs)
         if evs is None:
             return None
-        return f"([{'; '.join(evs)}], [{'; '.join(exp)}])"
+        return f"({cZ(case.get('q_reg', Q_REG))}, {cZ(case.get('q_op', Q_OP))}, [{'; '.join(evs)}], [{'; '.join(exp)}])"
 
     def show_term(self, case, obs):
         evs, _ = model_events(case, obs)
-        return f"prun ma_reg ma_op 1 2 pm_init [{'; '.join(evs)}]"
+        return f"prun ma_reg ma_op {cZ(case.get('q_reg', Q_REG))} {cZ(case.get('q_op', Q_OP))} pm_init [{'; '.join(evs)}]"
 
     def shrink(self, case):
         return shrink_case(case)
@@ -313,6 +317,8 @@ class PMStream(Stream):
             e = case["events"][x["e"]]
             if e["t"] == "bounds":
                 cur = e["sys"]
+            if x.get("n_reports") and max(x["n_reports"]) > 1 and e["t"] != "sleep":
+                out.append({"what": f"reports: a subscription received {max(x['n_reports'])} reports for the single event {x['e']} (regular and operating-point report streams are mixed)", "finding": None})
             r = x.get("request")
             if r is not None:
                 last = r
